@@ -24,13 +24,14 @@ structure DS where
   tags : List Nat := []   -- parallel to `m.queue`: firing batch of each queued object
   batch : Nat := 0        -- fresh at the start of every macro operation
   rs : Bool := false      -- the case runs on a real StandardRunService (loop drains at once)
+  cand : List (Nat × Nat) := []  -- (id, instant) of the runtime timers set and not yet gone off (read off the events)
   deriving Inhabited
 
 def qcap : Nat := 999
 
 def DS.qlen (d : DS) : Nat := min qcap d.m.queue.length
 
-/-- one primitive model step, keeping `tags` aligned with the queue -/
+/-- one primitive model step, keeping `tags` aligned with the queue and `cand` with the armings -/
 def stepM (d : DS) (op : Op) : DS × List Event :=
   let r := step d.m op
   let n0 := d.m.queue.length
@@ -39,17 +40,23 @@ def stepM (d : DS) (op : Op) : DS × List Event :=
     if n1 = n0 + 1 then d.tags ++ [d.batch]
     else if n1 + 1 = n0 then (match op with | .doNext i => d.tags.eraseIdx i | _ => d.tags)
     else d.tags
-  ({ d with m := r.1, tags := tags }, r.2)
+  let cand := r.2.foldl (fun c e =>
+    match e with
+    | .created id t dl _ _ => c ++ [(id, t + dl)]
+    | .rearm id t p => c ++ [(id, t + p)]
+    | _ => c) d.cand
+  ({ d with m := r.1, tags := tags, cand := cand }, r.2)
 
-def allIds (m : State) : List Nat := (List.range (m.nextId + 1)).filter (· ≥ 2)
-
-def dueIds (m : State) (target : Nat) : List Nat :=
-  (allIds m).filter fun id => (m.tm id).armed && decide ((m.tm id).exp ≤ target)
+/-- issue the expiry step for every candidate whose instant is ≤ `target` (a no-op in the
+model for timers that were cancelled meanwhile) -/
+def fire (d : DS) (target : Nat) : DS :=
+  let due := d.cand.filter (·.2 ≤ target)
+  let d := { d with cand := d.cand.filter (fun c => !(c.2 ≤ target)) }
+  due.foldl (fun d c => (stepM d (.expire c.1)).1) d
 
 /-- every runtime timer due at the current instant fires: one batch -/
 def settle (d : DS) : DS :=
-  let ids := dueIds d.m d.m.now
-  let d := ids.foldl (fun d id => (stepM d (.expire id)).1) d
+  let d := fire d d.m.now
   { d with batch := d.batch + 1 }
 
 def joinWith (sep : String) (xs : List String) : String := sep.intercalate xs
@@ -106,11 +113,11 @@ def pump : Nat → DS → List Nat → DS × List String × List Nat
       let (d, toks', hs) := pump fuel d hints'
       (d, toks ++ toks', hs)
 
-def minExp (m : State) (target : Nat) : Option Nat :=
-  (dueIds m target).foldl (fun acc id =>
+def minExp (d : DS) (target : Nat) : Option Nat :=
+  (d.cand.filter (·.2 ≤ target)).foldl (fun acc c =>
     match acc with
-    | none => some (m.tm id).exp
-    | some e => some (min e (m.tm id).exp)) none
+    | none => some c.2
+    | some e => some (min e c.2)) none
 
 def advanceTo (d : DS) (t : Nat) : DS :=
   if t > d.m.now then (stepM d (.advance (t - d.m.now))).1 else d
@@ -120,7 +127,7 @@ def rsAdv : Nat → DS → Nat → List Nat → DS × List String
   | 0, d, _, _ => (d, [])
   | fuel + 1, d, target, hints =>
     let (d, toks, hints) := pump 100000 d hints
-    match minExp d.m target with
+    match minExp d target with
     | none => (advanceTo d target, toks)
     | some e =>
       let d := settle (advanceTo d e)
@@ -130,11 +137,11 @@ def rsAdv : Nat → DS → Nat → List Nat → DS × List String
 /-- manual mode: expiries up to `target` are queued in order of their instant, one
 batch per instant (nothing re-arms meanwhile: only `Do` arms timers) -/
 def manAdv (d : DS) (target : Nat) : DS :=
-  let ids := (dueIds d.m target).mergeSort fun a b => decide ((d.m.tm a).exp ≤ (d.m.tm b).exp)
-  let d := ids.foldl (fun d id =>
-    let e := (d.m.tm id).exp
-    let d := if e > d.m.now then { advanceTo d e with batch := d.batch + 1 } else d
-    (stepM d (.expire id)).1) d
+  let due := (d.cand.filter (·.2 ≤ target)).mergeSort fun a b => decide (a.2 ≤ b.2)
+  let d := { d with cand := d.cand.filter (fun c => !(c.2 ≤ target)) }
+  let d := due.foldl (fun d c =>
+    let d := if c.2 > d.m.now then { advanceTo d c.2 with batch := d.batch + 1 } else d
+    (stepM d (.expire c.1)).1) d
   let d := advanceTo d target
   { d with batch := d.batch + 1 }
 
